@@ -180,6 +180,15 @@ Definition w_truediv sp self other tmp := run_w sp prog_truediv_elem self other 
 Definition w_rtruediv sp self other tmp := run_w sp prog_rtruediv_elem self other nzero tmp.
 Definition w_rtruediv_scalar sp self c tmp := run_w sp prog_rtruediv_scal self self c tmp.
 
+(* an operator called with plain DATA (ndarray, nested list/tuple) as the other operand:
+   other = self.space.element(data) -- [wrapped] is that element -- and then the REGENERATED
+   re-dispatch: the element branch of the dunder named by [redispatch] *)
+Definition w_data sp (o : opname) (self wrapped tmp : elem) :=
+  run_w sp (prog_elem (redispatch o)) self wrapped nzero tmp.
+(* the same operator called with an element of the space *)
+Definition w_elem sp (o : opname) (self other tmp : elem) :=
+  run_w sp (prog_elem o) self other nzero tmp.
+
 (* __neg__ is `-1 * self`, __pos__ is `self.copy()` (pinned) *)
 Definition w_neg sp self tmp := w_mul_scalar sp self (of_Z (-1)) tmp.
 Definition w_pos sp self tmp := w_copy sp self tmp.
